@@ -33,7 +33,7 @@ class ThreadCfg(Cfg):
 
     def raises(self, kind, text, node, st):
         if kind == "call" and self.raising:
-            f = text.split("(")[0]
+            f = st.last_func or text.split("(")[0]
             return [k for pat, k in self.raising.items() if re.fullmatch(pat, f)]
         return ()
 
